@@ -175,6 +175,24 @@ def seqQuery (cfg : Cfg) (name : String) (s : Seq) (args : List String) : String
           s!"cx {wsx.length}{posS} |" ++ String.join (wsx.map (fun win => " " ++ ratStr (lzwWindow w win)))
   | _, _ => "bad-op " ++ name
 
+/-- a query on a live object: returns the (possibly cache-updated) object and the canonical output -/
+def objQuery (cfg : Cfg) (o : Obj) (name : String) (args : List String) : Obj × String :=
+  let T := cfg.T
+  match name, args with
+  | "kappa", [] => let r := o.kappa T; (r.1, outRat r.2)
+  | "dmax", [] => let r := o.deltaMax T false; (r.1, outRat r.2.1)
+  | "dmaxperm", [] =>
+    let r := o.deltaMax T true
+    (r.1, s!"perm {ratStr r.2.1} ? {((r.2.2).getD []).toString}")
+  | "kappaphos", [] => let r := o.kappaAfterPhos T; (r.1, outRat r.2)
+  | "getphos", [] => (o, outNats o.getPhos)
+  | "phosseq", [] => (o, "str " ++ o.phosphoSeq.toString)
+  | "phosdist", [] =>
+    (o, s!"dist {(o.phosDist T).length}" ++ String.join ((o.phosDist T).map (fun e =>
+      " " ++ String.intercalate "," (e.1.map ratStr) ++ ":" ++ String.ofList (e.2.map (fun b => if b then '1' else '0')))))
+  | "html", [] => (o, "str " ++ o.html)
+  | _, _ => (o, seqQuery cfg name o.seq args)
+
 structure St where
   objs : List (Nat × Obj)
 
@@ -191,7 +209,9 @@ def handle (cfg : Cfg) (st : St) (line : String) : St × String :=
   | "q" :: name :: seqTok :: args =>
     match Seq.ofChars? seqTok.toList with
     | none => (st, "bad-op seq")
-    | some s => (st, seqQuery cfg name s args)
+    | some s =>
+      if name == "dmaxperm" then (st, seqQuery cfg name s args)   -- fresh object: also prints the candidate pattern
+      else (st, (objQuery cfg (Obj.fresh cfg.pal s) name args).2)
   -- C13
   | ["mk", hex] => (st, outExcept (fun w => "str " ++ (w : Seq).toString) (construct pyOps (.str (unhex6 hex.toList))))
   | ["mk"] => (st, outExcept (fun w => "str " ++ (w : Seq).toString) (construct pyOps (.str [])))
@@ -217,21 +237,7 @@ def handle (cfg : Cfg) (st : St) (line : String) : St × String :=
   | "o" :: i :: name :: args =>
     match st.get i.toNat! with
     | none => (st, "bad-op noobj")
-    | some o =>
-      match name, args with
-      | "kappa", [] => let r := o.kappa T; (st.set i.toNat! r.1, outRat r.2)
-      | "dmax", [] => let r := o.deltaMax T false; (st.set i.toNat! r.1, outRat r.2.1)
-      | "dmaxperm", [] =>
-        let r := o.deltaMax T true
-        (st.set i.toNat! r.1, s!"perm {ratStr r.2.1} ? {((r.2.2).getD []).toString}")
-      | "kappaphos", [] => let r := o.kappaAfterPhos T; (st.set i.toNat! r.1, outRat r.2)
-      | "getphos", [] => (st, outNats o.getPhos)
-      | "phosseq", [] => (st, "str " ++ o.phosphoSeq.toString)
-      | "phosdist", [] =>
-        (st, s!"dist {(o.phosDist T).length}" ++ String.join ((o.phosDist T).map (fun e =>
-          " " ++ String.intercalate "," (e.1.map ratStr) ++ ":" ++ String.ofList (e.2.map (fun b => if b then '1' else '0')))))
-      | "html", [] => (st, "str " ++ o.html)
-      | _, _ => (st, seqQuery cfg name o.seq args)
+    | some o => let r := objQuery cfg o name args; (st.set i.toNat! r.1, r.2)
   | "setphos" :: i :: sites =>
     match st.get i.toNat! with
     | none => (st, "bad-op noobj")
